@@ -483,7 +483,6 @@ pub(crate) mod util {
                         function_type => "function type",
                         open_ended_type => "open ended list spread",
                         list_type => "list type",
-                        list_type_open_only => "list spread",
                         add => "+",
                         subtract => "-",
                         multiply => "*",
